@@ -46,36 +46,36 @@ Proof.
   assert (Hkp : forall k, In k kp -> in_cur s k = false).
   { intros k Hk. apply Hnc. apply kept_In in Hk. tauto. }
   destruct (agg s) as [a|] eqn:Ea.
-  - fold (cur_add (mkE rv ce lwc) kp (cur a)).
-    assert (Hold : forall k e, agg_entry s k e ->
-             exists a', Some (a_cur (cur_add (mkE rv ce lwc) kp (cur a)) a) = Some a' /\
-                        (findk k (cur a') = Some e \/ findk k (prev a') = Some e)).
-    { intros k e (a0 & Ha0 & Hf). rewrite Ea in Ha0. inversion Ha0; subst a0.
-      eexists. split; [reflexivity|]. simpl. destruct Hf as [Hf|Hf]; auto. left.
-      rewrite cur_add_find. destruct (memk k kp) eqn:Em; auto.
-      apply memk_In in Em. apply Hkp in Em. rewrite (in_cur_findk s a k Ea Em) in Hf. discriminate. }
+  - fold (cur_add (mkE rv ce lwc) kp (cur a)). fold (prev_del kp (prev a)).
+    assert (Hold : forall k f', agg_cov s k f' ->
+             agg_cov (set_agg (Some (a_prev (prev_del kp (prev a)) (a_cur (cur_add (mkE rv ce lwc) kp (cur a)) a))) s) k f').
+    { intros k f' (a0 & e & Ha0 & Hf & Hle). rewrite Ea in Ha0. inversion Ha0; subst a0.
+      destruct (memk k kp) eqn:Em.
+      - eexists. exists (mkE rv ce lwc). split; [reflexivity|]. simpl. split; auto.
+        left. rewrite cur_add_find, Em. auto.
+      - eexists. exists e. split; [reflexivity|]. simpl. split; auto.
+        rewrite cur_add_find, prev_del_find, Em. auto. }
     split; [|split].
     + intros p Hp. simpl in Hp. destruct (HI p Hp) as [[[B Hc]|Ht]|Hn].
       * left. split; [exact B|]. simpl. destruct (snd p) as [f'|]; auto.
-        destruct Hc as [Hc|(e & He & Hle)]; [left; auto|]. right. exists e. split; auto.
-        destruct (Hold _ _ He) as (a' & Ea' & Hf). exists a'. simpl. auto.
+        destruct Hc as [Hc|Hc]; [left; auto|]. right. apply Hold. exact Hc.
       * right. destruct Ht as (t & T1 & T2). exists t; auto.
       * destruct (Hnew p Hn) as (B & Hk & f' & Hs & Hle). left. split; [exact B|]. simpl. rewrite Hs.
-        right. exists (mkE rv ce lwc). split; [|simpl; auto].
-        eexists. split; [simpl; reflexivity|]. left. simpl. rewrite cur_add_find.
-        apply memk_In in Hk. rewrite Hk. auto.
+        right. eexists. exists (mkE rv ce lwc). split; [simpl; reflexivity|]. simpl. split.
+        -- left. rewrite cur_add_find. apply memk_In in Hk. rewrite Hk. auto.
+        -- pose proof (Hla a eq_refl). lia.
     + intros a' k e Ha' Hin. simpl in Ha'. inversion Ha'; subst a'. simpl in *.
       apply in_app_or in Hin. destruct Hin as [Hin|Hin].
       * apply cur_add_In in Hin. simpl in Hin. destruct Hin as [Hin|Hin].
         -- subst e. simpl. auto.
         -- apply (HL a k e Ea). apply in_or_app; auto.
-      * apply (HL a k e Ea). apply in_or_app; auto.
+      * apply prev_del_In in Hin. apply (HL a k e Ea). apply in_or_app; auto.
     + unfold cnt_ok, agg_len in *. simpl. rewrite Ea in HC.
-      pose proof (cur_add_length (mkE rv ce lwc) kp (cur a)). unfold len in *. lia.
+      pose proof (cur_add_length (mkE rv ce lwc) kp (cur a)). pose proof (prev_del_length kp (prev a)). unfold len in *. lia.
   - split; [|split].
     + intros p Hp. simpl in Hp. destruct (HI p Hp) as [[[B Hc]|Ht]|Hn].
       * left. split; [exact B|]. simpl. destruct (snd p) as [f'|]; auto.
-        destruct Hc as [[H1 H2]|(e & (a0 & Ha0 & _) & _)]; [|congruence]. left. split; auto. apply in_or_app; auto.
+        destruct Hc as [[H1 H2]|(a0 & e & Ha0 & _ & _)]; [|congruence]. left. split; auto. apply in_or_app; auto.
       * right. destruct Ht as (t & T1 & T2). exists t; auto.
       * destruct (Hnew p Hn) as (B & Hk & f' & Hs & Hle). left. split; [exact B|]. simpl. rewrite Hs.
         left. split; [apply in_or_app; auto|]. rewrite (Hl0 eq_refl) in Hle. lia.
@@ -140,7 +140,7 @@ Proof.
         apply memk_In. apply kept_In. apply eff_locked_In in H1. auto.
       * left. destruct (HI p Hp) as [[(B1 & B2 & B3) Hc]|Ht].
         -- left. split; [unfold book_ok; rewrite Eva, Epe, Eco; auto|].
-           destruct (snd p) as [f'|]; auto. destruct Hc as [[H1 H2]|(e & (a0 & Ha0 & _) & _)]; [|congruence].
+           destruct (snd p) as [f'|]; auto. destruct Hc as [[H1 H2]|(a0 & e & Ha0 & _ & _)]; [|congruence].
            left. rewrite Efl, Efu, Ecm. auto.
         -- right. destruct Ht as (t & T1 & T2). exists t. rewrite Etk. auto.
     + intros a k e Ha'. congruence.
